@@ -1,6 +1,7 @@
 """History runner: random operation sequences through the real application and the Lean model,
 with correspondence comparison and property monitors after every step.  Used by the checks of the
 history properties (C01, C04, C08, C09, C10, C11, C12)."""
+from harness import ppool
 import json
 import multiprocessing as mp
 import os
@@ -177,7 +178,7 @@ def run_histories(chk, n_cases, nops, profile, mons, use_model=True, procs=None)
     seeds = [chk.seed * 1000003 + i for i in range(n_cases)]
     agg = {}
     errors = []
-    with ctx.Pool(procs, initializer=_init, initargs=(use_model,)) as pool:
+    with ppool.Pool(ctx, procs, initializer=_init, initargs=(use_model,)) as pool:
         for res in pool.imap_unordered(case, [(s, nops, profile, tuple(mons), use_model) for s in seeds], chunksize=2):
             if 'error' in res:
                 errors.append(res['error'])
